@@ -57,19 +57,23 @@ def make_increments(case, pva):
     return om, C.T @ f_n
 
 
-def inc_table(om, fb, dt, n, level=False, t0=0.0):
+def inc_table(om, fb, dt, n, level=False, t0=0.0, sign=None):
     """Constant body rate; specific force constant in the body frame, or (level=True, used in the no-altitude mode, whose
     model presumes vertical force balance) constant in the navigation frame: f_b(t) = exp(-om t) fb at mid-interval.
     dt may be a scalar (n equal intervals) or an array of n interval lengths."""
     dts = np.full(n, dt) if np.isscalar(dt) else np.asarray(dt, float)
     t = np.cumsum(dts)
+    # sign (n values +-1): the body turns back and forth about the fixed axis om (rate om * sign per row), so that the
+    # accumulated angle about that axis is phi(t) = int sign dt instead of t
+    sg = np.ones(n) if sign is None else np.asarray(sign, float)
+    phi = np.cumsum(sg * dts)
     if level:
-        tm = t - 0.5 * dts
-        E = np.asarray(ROT.exp_so3(-om[None, :] * tm[:, None], float), float)
+        pm = phi - 0.5 * sg * dts
+        E = np.asarray(ROT.exp_so3(-om[None, :] * pm[:, None], float), float)
         dv = np.einsum('nij,j->ni', E, fb) * dts[:, None]
     else:
         dv = fb[None, :] * dts[:, None]
-    return pd.DataFrame(np.column_stack([dts, om[None, :] * dts[:, None], dv]),
+    return pd.DataFrame(np.column_stack([dts, om[None, :] * (sg * dts)[:, None], dv]),
                         index=pd.Index(t0 + t, name='time'), columns=INC)
 
 
@@ -266,6 +270,7 @@ def prop_strategy():
         'edir': st.lists(st.floats(-1, 1), min_size=15, max_size=15),
         'sub': st.integers(0, 2 ** 31 - 1),
         't0': st.sampled_from([0.0, 0.0, 500.0, -25.0]),          # the record's time origin (the motion is the same)
+        'weave': st.sampled_from(['no', 'no', 'no', 'heading', 'heading', 'roll']),
     })
 
 
@@ -288,6 +293,9 @@ def run_propagate(case, ctx):
     pva = gen.to_pva({k: case[k] for k in ('lat', 'lon', 'alt', 'speed', 'vdir', 'roll', 'pitch', 'heading')}, t0)
     if not wa:
         pva['VD'] = 0.0
+    weave = case.get('weave', 'no')
+    if weave != 'no':          # the body weaves about its initial attitude, which sits exactly on the +-180 seam of heading or roll:
+        pva[weave] = 180.0     # consecutive trajectory rows then lie on either side of the wrap again and again
     rng = np.random.RandomState(case['sub'])
     C = np.asarray(ROT.dcm_from_rph(pva[EC.RPH].values.astype(float)), float)
     om = rng.uniform(-0.05, 0.05, 3)
@@ -303,13 +311,21 @@ def run_propagate(case, ctx):
     else:
         dts = np.full(n, dt)
         ctx.label('sampling=uniform')
-    inc = inc_table(om, C.T @ f_n, dts, n, level=True, t0=t0)
-    inc_h = inc_table(om, C.T @ f_n, np.repeat(dts / 2, 2), 2 * n, level=True, t0=t0)     # same motion at half the IMU interval
-    ctx.label('t0=0' if t0 == 0 else 't0!=0')
+    sign = None
+    if weave != 'no':
+        m = 2 + case['sub'] % 5                      # rows per half-swing; the first swing is half as long (symmetric weave)
+        sign = np.where(((np.arange(n) + m - m // 2) // m) % 2 == 0, 1.0, -1.0)
+    inc = inc_table(om, C.T @ f_n, dts, n, level=True, t0=t0, sign=sign)
+    inc_h = inc_table(om, C.T @ f_n, np.repeat(dts / 2, 2), 2 * n, level=True, t0=t0,
+                      sign=None if sign is None else np.repeat(sign, 2))     # same motion at half the IMU interval
+    ctx.label('t0=0' if t0 == 0 else 't0!=0', f'weave={weave}')
     nom = ctx.sut(strapdown.Integrator(pva, wa).integrate, inc)
     nom_h = strapdown.Integrator(pva, wa).integrate(inc_h)
     v = float(np.linalg.norm(nom[EC.VEL].values.astype(float), axis=1).max())
     ctx.label('mode=3D' if wa else 'mode=2D', f'T={T}', f'dt={dt}', 'speed=' + ('<1' if v < 1 else '<30' if v < 30 else '>=30'))
+    if weave != 'no':
+        ncross = int(np.sum(np.abs(np.diff(nom[weave].values)) > 180.0))
+        ctx.label('wrap_crossings=' + ('0' if ncross == 0 else '1-9' if ncross < 10 else '>=10'))
     pmax = float(np.abs(nom['pitch'].values).max())
     if pmax > 82.0 or np.abs(nom['lat'].values).max() > 81.0 or v > 350.0:
         ctx.inconclusive['nominal_left_domain'] += 1       # the property is stated for |pitch|<=80, |lat|<=80, speed<=300
@@ -354,6 +370,20 @@ def run_propagate(case, ctx):
         ctx.check(nom.equals(nsnap) and np.array_equal(ge_arg, gsnap), 'input_modified', '')
         ctx.check(list(lin.columns) == gen.ERR_COLS and lin.index.equals(nom.index) and list(mod.columns) == em.states
                   and mod.index.equals(nom.index), 'schema', lambda: f'{list(lin.columns)} {list(mod.columns)}')
+        if weave != 'no':
+            # the same attitudes written without the seam (angles congruent modulo 360: 179.9, 180.2, 179.7 instead of 179.9, -179.8,
+            # 179.7) are the same trajectory, so the model predicts the same errors; the halving-change tolerance below cannot see a
+            # model that mishandles the seam, because sub-sampling the rows moves the crossings and the change absorbs the defect
+            nom_u = nom.copy()
+            nom_u[weave] = np.degrees(np.unwrap(np.radians(nom[weave].values)))
+            lin_u, mod_u = ctx.sut(error_model.propagate_errors, nom_u, err, ge_arg, ae_arg, wa)
+            for a_, b_, nm in ((lin_u, lin, 'trajectory error'), (mod_u, mod, 'model error')):
+                d_ = np.abs(a_.values - b_.values).max()
+                lim_ = 1e-9 * np.abs(b_.values).max() + 1e-12
+                ctx.stat('seam_representation', d_ / lim_)
+                ctx.check(d_ <= lim_, 'angle_representation_dependent',
+                          lambda: f'case={case} scale={s}: predicted {nm} differs by {d_:.3e} (largest {np.abs(b_.values).max():.3e}) when {weave} is '
+                                  f'written continuously across +-180 instead of wrapped')
         lin2, _ = ctx.sut(error_model.propagate_errors, nom.iloc[::2], err, ge_arg[::2] if per_row else ge_arg, ae_arg[::2] if per_row else ae_arg, wa)
         act = np.array([EC.output_difference(pert.iloc[k], nom.iloc[k]) for k in chk])
         iph = inc_h.copy()
@@ -424,7 +454,70 @@ def run_propagate(case, ctx):
     ctx.mark_nontrivial(bool(np.sum(tolmax < 0.2 * sig) >= 4))
 
 
+# ------------------------------------------------------------------------------------------ argument forms
+def forms_strategy():
+    return st.fixed_dictionaries({
+        'k': st.integers(1, 6),
+        'with_altitude': st.booleans(),
+        'whole': st.sampled_from(['velocity', 'velocity', 'all', 'angles']),
+        'sub': st.integers(0, 2 ** 31 - 1),
+    })
+
+
+def run_forms(case, ctx):
+    """The model matrices and the propagated errors are functions of the VALUES in the trajectory: the same whole-number values
+    stored as int64 columns (a hand-built or file-read table), one row given as a Series or as a one-row table, and a row taken
+    alone or as part of a stack all give the same matrices."""
+    from pyins import error_model
+    wa = case['with_altitude']
+    rng = np.random.RandomState(case['sub'])
+    k = case['k']
+    T = pd.DataFrame({'lat': rng.uniform(-80, 80, k), 'lon': rng.uniform(-180, 180, k), 'alt': rng.uniform(0, 20000, k),
+                      'VN': rng.uniform(-200, 200, k), 'VE': rng.uniform(-200, 200, k), 'VD': rng.uniform(-20, 20, k) * wa,
+                      'roll': rng.uniform(-180, 180, k), 'pitch': rng.uniform(-80, 80, k), 'heading': rng.uniform(-180, 180, k)},
+                     index=pd.Index(np.cumsum(rng.uniform(0.1, 1.0, k)), name='time'))[gen.TRAJ_COLS]
+    whole = {'velocity': EC.VEL, 'angles': EC.RPH, 'all': gen.TRAJ_COLS}[case['whole']]
+    T[whole] = np.rint(T[whole]) + 0.0
+    Ti = T.astype({c: np.int64 for c in whole})
+    ctx.label(f'int_columns={case["whole"]}', f'rows={k if k < 3 else ">=3"}', 'mode=3D' if wa else 'mode=2D')
+    em = error_model.InsErrorModel(wa)
+    ref = ctx.sut(em.system_matrices, T)
+    snap = Ti.copy()
+    got = ctx.sut(em.system_matrices, Ti)
+    ctx.check(Ti.equals(snap) and list(Ti.dtypes) == list(snap.dtypes), 'input_modified', '')
+    names = ('F', 'B_gyro', 'B_accel')
+
+    def same(a, b, what):
+        for nm, x, y in zip(names, a, b):
+            x, y = np.asarray(x), np.asarray(y)
+            ctx.check(x.shape == y.shape, f'form_shape:{what}', lambda: f'{nm}: {x.shape} vs {y.shape}')
+            scale = np.abs(y).max() if y.size else 0.0
+            d = np.abs(x - y).max() if y.size else 0.0
+            ctx.check(d <= 16 * np.spacing(max(scale, 1e-300)), f'form_dependent:{what}',
+                      lambda: f'{nm} differs by {d:.3e} (largest entry {scale:.3e}) between {what}; table:\n{T}')
+    same(got, ref, 'int64 and float64 columns')
+    j = int(rng.randint(k))
+    one = ctx.sut(em.system_matrices, T.iloc[j])                 # a single Pva (Series): no leading axis
+    same(one, [m[j] for m in ref], 'a Series row and the same row of the stack')
+    if case['whole'] == 'all':                                   # a Pva typed in as whole numbers: an int64 Series
+        one_i = ctx.sut(em.system_matrices, Ti.iloc[j])
+        same(one_i, [m[j] for m in ref], 'an int64 Series row and the float stack')
+    tab1 = ctx.sut(em.system_matrices, T.iloc[j:j + 1])
+    same([m[0] for m in tab1], [m[j] for m in ref], 'a one-row table and the same row of the stack')
+    if k >= 2:
+        err = pd.Series(rng.uniform(-1, 1, 9) * [5, 5, 5 * wa, 0.1, 0.1, 0.1 * wa, 0.05, 0.05, 0.05], index=gen.ERR_COLS)
+        ge, ae = rng.uniform(-1e-5, 1e-5, 3), rng.uniform(-1e-3, 1e-3, 3)
+        a = ctx.sut(error_model.propagate_errors, T, err, ge, ae, wa)
+        b = ctx.sut(error_model.propagate_errors, Ti, err, ge, ae, wa)
+        for x, y, nm in zip(a, b, ('trajectory error', 'model error')):
+            d = np.abs(x.values - y.values).max()
+            ctx.check(d <= 64 * np.spacing(np.abs(x.values).max()), 'form_dependent:propagate_errors',
+                      lambda: f'{nm} differs by {d:.3e} between int64 and float64 trajectory columns')
+    ctx.mark_nontrivial(k >= 2 and float(np.abs(T[EC.VEL].values).max()) >= 30.0)
+
+
 CLAUSES = [
+    Clause('forms', forms_strategy, run_forms, quick=(120, 4), thorough=(4000, 16)),
     Clause('blocks', case_strategy, run_blocks, quick=(64, 16), thorough=(4000, 16), shrink_quick=False),
     Clause('propagate', prop_strategy, run_propagate, quick=(32, 16), thorough=(1200, 16), shrink_quick=False),
 ]
